@@ -123,6 +123,8 @@ func checkC13() *checkDef {
 			}
 			return []run{
 				{Pkg: "./cache", Scenario: "cache/lru", Params: ls},
+				// "larger entries weighted up": a 2 MiB larger entry used a millisecond later outranks a small one
+				{Pkg: "./cache", Scenario: "cache/size-weight", Params: map[string]any{}, Workers: 1},
 				{Pkg: "./cache", Scenario: "cache/sched", Params: ps, K: k, E: 1, Horizon: 5000},
 			}
 		},
@@ -160,6 +162,8 @@ func freshRuns(tier string) []run {
 	return []run{
 		{Pkg: "./proxy", Scenario: "proxy/fresh", Params: map[string]any{"backend": "memory"}},
 		{Pkg: "./proxy", Scenario: "proxy/fresh", Params: map[string]any{"backend": "file"}},
+		// the policy switches changed on a running proxy between requests (histories of accepted updates)
+		{Pkg: "./proxy", Scenario: "proxy/switches", Params: map[string]any{}, Workers: 8},
 	}
 }
 
@@ -189,7 +193,9 @@ func checkC03() *checkDef {
 			}
 			// ranges cut from a fresh stored entry are served "this way" too and carry the HIT label
 			rr := run{Pkg: "./proxy", Scenario: "proxy/range", Params: map[string]any{"backend": "memory"}}
-			return append(freshRuns(tier), run{Pkg: "./proxy", Scenario: "proxy/sched", Params: pp, K: 2, E: 1, F: 1, Horizon: 8000}, rr)
+			// lifetimes after a revalidation (a 304 renews by the configured default whatever the request carried)
+			rv := run{Pkg: "./proxy", Scenario: "proxy/reval", Params: map[string]any{"backend": "memory", "depth": 3}}
+			return append(freshRuns(tier), run{Pkg: "./proxy", Scenario: "proxy/sched", Params: pp, K: 2, E: 1, F: 1, Horizon: 8000}, rr, rv)
 		},
 	}
 }
@@ -267,6 +273,7 @@ func checkC07() *checkDef {
 				{Pkg: "./proxy/headers", Scenario: "headers/range", Params: map[string]any{"max_len": ml, "sizes": []int{0, 1, 2, 10, 36}}},
 				{Pkg: "./proxy", Scenario: "proxy/range", Params: map[string]any{"backend": "memory"}},
 				{Pkg: "./proxy", Scenario: "proxy/range", Params: map[string]any{"backend": "file"}},
+				{Pkg: "./proxy", Scenario: "proxy/switches", Params: map[string]any{}, Workers: 8},
 			}
 		},
 	}
@@ -401,6 +408,9 @@ func coalescingScenarios(prop string, clients int) []psched {
 		for _, start := range []string{"cold", "fresh", "stale-304", "stale-200"} {
 			ps = append(ps, psched{Name: n(start), Backend: be, Clients: clients, Start: start, Outcome: "cacheable", Prop: prop})
 		}
+		// key histories: an earlier answer for this key could not be stored; the resource is cacheable now
+		ps = append(ps, psched{Name: n("cold-after-no-store"), Backend: be, Clients: clients, Start: "after-no-store", Outcome: "cacheable", Prop: prop})
+		ps = append(ps, psched{Name: n("cold-after-503"), Backend: be, Clients: clients, Start: "after-503", Outcome: "cacheable", Prop: prop})
 		ps = append(ps, psched{Name: n("cold-no-store"), Backend: be, Clients: clients, Start: "cold", Outcome: "no-store", Prop: prop})
 		ps = append(ps, psched{Name: n("cold-500"), Backend: be, Clients: clients, Start: "cold", Outcome: "status-500", Prop: prop})
 		// the shared fetch fails once (transient 503): nothing can be shared, every client falls back to a
